@@ -1,0 +1,113 @@
+// Licensed to Apache Software Foundation (ASF) under one or more contributor
+// license agreements. See the NOTICE file distributed with
+// this work for additional information regarding copyright
+// ownership. Apache Software Foundation (ASF) licenses this file to you under
+// the Apache License, Version 2.0 (the "License"); you may
+// not use this file except in compliance with the License.
+// You may obtain a copy of the License at
+//
+//     http://www.apache.org/licenses/LICENSE-2.0
+//
+// Unless required by applicable law or agreed to in writing,
+// software distributed under the License is distributed on an
+// "AS IS" BASIS, WITHOUT WARRANTIES OR CONDITIONS OF ANY
+// KIND, either express or implied.  See the License for the
+// specific language governing permissions and limitations
+// under the License.
+
+//go:build verif
+
+// Contracts for the verification harness (comment-only; compiled only with -tags verif).
+// Syntax: see /verif/DESIGN.md §2.2.
+
+package fs
+
+//@ property C04
+//
+// Durability ordering of the file-system primitives as a typestate over ghost state. The operating system is
+// external: each os call below has an *assumed* contract that only records which step succeeded.
+//
+//@ type os.File
+//@   ghost written bool
+//@   ghost synced bool
+//@   ghost closed bool
+//
+//@ ghost var fsTmpOpened bool
+//@ ghost var fsRemoveTried bool
+//@ ghost var fsRenameTried bool
+//@ ghost var fsRenamed bool
+//@ ghost var fsDirSynced bool
+//@ ghost var fsDataSynced bool
+//
+//@ func os.OpenFile
+//@   assumed operating system
+//@   modifies fsTmpOpened
+//@   ensures  result1 == nil ==> result0 != nil && fresh(result0) && !result0.written && !result0.synced && !result0.closed && fsTmpOpened
+//@   ensures  result1 != nil ==> fsTmpOpened == old(fsTmpOpened)
+//@ func os.File.Write
+//@   assumed operating system
+//@   modifies recv.written
+//@   ensures  result1 == nil ==> recv.written && result0 == len(b)
+//@   ensures  result1 != nil ==> !recv.written
+//@   ensures  0 <= result0 && result0 <= len(b)
+//@ func os.File.Sync
+//@   assumed operating system
+//@   modifies recv.synced
+//@   modifies fsDataSynced
+//@   ensures  result == nil ==> recv.synced == recv.written && fsDataSynced == recv.written
+//@   ensures  result != nil ==> !recv.synced && fsDataSynced == old(fsDataSynced)
+//@ func os.File.Close
+//@   assumed operating system
+//@   modifies recv.closed
+//@   ensures  result == nil ==> recv.closed
+//@ func os.Remove
+//@   assumed operating system
+//@   modifies fsRemoveTried
+//@   ensures  fsRemoveTried
+//@ func os.Rename
+//@   assumed operating system
+//@   modifies fsRenameTried
+//@   modifies fsRenamed
+//@   ensures  fsRenameTried && (fsRenamed == (result == nil))
+//@ func os.IsPermission
+//@   assumed operating system
+//@   pure
+//@ func os.IsExist
+//@   assumed operating system
+//@   pure
+//@ func filepath.Dir
+//@   assumed pure path manipulation
+//@   pure
+//@ func syncDir
+//@   assumed per-platform helper: opens, fsyncs and closes the directory
+//@   modifies fsDirSynced
+//@   ensures  result == nil ==> fsDirSynced
+//@   ensures  result != nil ==> fsDirSynced == old(fsDirSynced)
+//@ func func:invokeTestHookAfterTmpFsync
+//@   assumed test hook, a no-op in production
+//
+// WriteAtomic: the final name is replaced only by a fully written, fsynced and closed temporary file; success is
+// reported only after the rename and the directory fsync succeeded; a failure before the rename removes the
+// temporary file and leaves the final name untouched; after a failed rename the (complete) temporary file is kept.
+//@ func localFileSystem.WriteAtomic
+//@   mode int
+//@   requires !fsTmpOpened && !fsRemoveTried && !fsRenameTried && !fsRenamed && !fsDirSynced
+//@   modifies fsTmpOpened
+//@   modifies fsRemoveTried
+//@   modifies fsRenameTried
+//@   modifies fsRenamed
+//@   modifies fsDirSynced
+//@   modifies fsDataSynced
+//@   at-call os.Rename requires durable-before-rename: file.written && file.synced && file.closed
+//@   ensures  commit:    result1 == nil ==> fsRenamed && fsDirSynced && result0 == len(buffer)
+//@   ensures  untouched: !fsRenameTried ==> result1 != nil && !fsRenamed
+//@   ensures  cleanup:   fsTmpOpened && !fsRenameTried ==> fsRemoveTried
+//@   ensures  forensic:  fsRenameTried && !fsRenamed ==> !fsRemoveTried && result1 != nil
+//
+// Write: success is reported only after the data was written completely and fsynced.
+//@ func localFileSystem.Write
+//@   mode int
+//@   requires !fsDataSynced
+//@   modifies fsTmpOpened
+//@   modifies fsDataSynced
+//@   ensures  durable: result1 == nil ==> fsDataSynced && result0 == len(buffer)
